@@ -153,6 +153,11 @@ impl Session {
                 let payload_len = encrypted_data.as_bytes().len();
                 if payload_len > max_payload_len as usize + MHDR_LEN + MIC_LEN {
                     info!("Dropping oversized payload.");
+                    // Outside the RX1/RX2 windows of an uplink (Class C listening) there is
+                    // no receive procedure to conclude: the frame is just dropped.
+                    if ignore_mac {
+                        return Response::NoUpdate;
+                    }
                     return self.rx2_complete(configuration, region);
                 }
             }
